@@ -8,6 +8,7 @@ Oracle: an independent executable model of the acceptance rule evaluated on the 
 
 from __future__ import annotations
 
+import asyncio
 import random
 import struct
 
@@ -61,7 +62,7 @@ def gen_plan(seed: int, tier: str) -> dict:
     ops = []
     for _ in range(r.randint(3, 30)):
         kind = r.choice(["next", "next", "next", "skip", "skip", "current", "older", "beyond", "replay_exact", "wrong_key", "wrong_adv_id", "bitflip", "bitflip",
-                         "inner_mismatch", "truncate", "extend", "duplicate", "regular", "other_device", "rekey", "superseded_key", "superseded_key"])
+                         "inner_mismatch", "truncate", "extend", "duplicate", "duplicate_skip", "regular", "other_device", "rekey", "superseded_key", "superseded_key"])
         op = {"kind": kind, "k": r.randrange(2, 100), "far": r.choice([100, 101, 150, 1000, 40000]), "back": r.randrange(1, 50), "fmt": r.randrange(len(FORMATS)),
               "val": r.randrange(2**63), "bit": r.randrange(16 * 8), "n": r.randrange(0, 16), "delta": r.choice([1, -1, 2, 255, 256])}
         ops.append(op)
@@ -211,7 +212,7 @@ def execute(plan: dict, ch: Chooser) -> dict:
                 if [len(x) for x in logs] != before:
                     ctx.violate("regular-advert-notifies", "", "a regular advertisement produced a listener call")
                 continue
-            if kind == "skip":
+            if kind in ("skip", "duplicate_skip"):
                 n_nonce = g + op["k"]
             elif kind == "current":
                 n_nonce = g
@@ -260,8 +261,12 @@ def execute(plan: dict, ch: Chooser) -> dict:
                     break
             before = [len(x) for x in logs]
             state_before = p.description.state_num
-            for rep in range(2 if kind == "duplicate" else 1):
-                deliver(mfr, kind)
+            for rep in range(2 if kind in ("duplicate", "duplicate_skip") else 1):
+                deliver(mfr, kind)  # both copies inside one callback of the loop: several reports buffered when the scanner's reader runs
+            # judged once the loop is idle again, not inside the scanner callback: an implementation may finish the work in later
+            # loop iterations (call_soon) as long as the outcome is right
+            for _ in range(12):
+                await asyncio.sleep(0)
             ctx.obligations += 1
             after = [len(x) for x in logs]
             ctx.event("adv", i, kind, expect is not None and expect[0] != "short", p.description.state_num)
@@ -270,7 +275,7 @@ def execute(plan: dict, ch: Chooser) -> dict:
                 g = p.description.state_num
                 continue
             if expect is None:
-                if kind not in ("next", "skip"):
+                if kind not in ("next", "skip", "duplicate_skip"):
                     rejected_any = True
                 if after != before or p.description.state_num != state_before:
                     ctx.violate("forged-or-stale-accepted", kind,
@@ -301,7 +306,7 @@ def execute(plan: dict, ch: Chooser) -> dict:
                         ctx.violate("listener-calls", f"{kind}/{len(new)}", f"advert #{i} ({kind}) accepted: listener {li} got {len(new)} calls (expected exactly 1)")
                     elif list(new[0].keys()) != [(1, eiid)] or new[0][(1, eiid)].get("value") != ewant:
                         ctx.violate("listener-value", efmt, f"advert #{i} ({kind}, {efmt}): listener {li} got {new[0]} expected {{(1, {eiid}): {{'value': {ewant!r}}}}}")
-                if kind in ("next", "skip"):
+                if kind in ("next", "skip", "duplicate_skip"):
                     history.append((payload, n))
                 g = p.description.state_num
         ctx.state(plan["g0"] > 65400, accepted_any, rejected_any, plan["listeners"])
